@@ -7,7 +7,7 @@ import treeutil as tu
 from common import hex6
 
 ID = "C08"
-GEN_DEPENDS = ["PyBits"]     # the update_bipartitions part of the model re-uses C01's `encode`, which calls the generated bit functions
+GEN_DEPENDS = ["PyBits", "C08Kernels"]     # C08Kernels: case rule + Latin-1 fold table, wrapper filters/flags, length merge, flag defaults; the update_bipartitions part of the model re-uses C01's `encode`, which calls the generated bit functions
 RULE = ("random rose trees 1-12 leaves (30 in thorough; unary nodes/chains incl. unary seed, polytomies, fixed families, None/zero/dyadic "
         "lengths, namespaces with extra and removed members, shuffled taxon->bit map) x subset K of the leaf taxa (random, exactly one, "
         "all-but-one, all, one whole clade emptied / only one clade kept) x suppress_unifurcations x update_bipartitions x 11 taxon-driven "
@@ -22,15 +22,26 @@ RULE = ("random rose trees 1-12 leaves (30 in thorough; unary nodes/chains incl.
         "internal taxa; the driver's measurement functions (clade masks, leaf-to-leaf path lengths) and both specifications (restrict, "
         "restrictA) are compared with from-scratch Python walks; sources carry tree/edge/node labels and a weight. thorough adds every "
         "subset of every ordered shape <= 5 leaves and of every unordered shape with 6 and 7 leaves. Non-trivial = 1 < |K| < n "
-        "(taxon group) or a predicate that removes some but not all leaves")
+        "(taxon group) or a predicate that removes some but not all leaves. ext-3: by-label cases draw labels from three alphabets "
+        "(ASCII; Latin-1 letters with/without case partner incl. sharp s, micro sign, multiplication sign; beyond code point 255, where the "
+        "driver must answer out-of-range and only the oracle judges); calls that OMIT suppress_unifurcations/update_bipartitions/recursive "
+        "(declared defaults); prune_leaves_without_taxa recursive and single-pass on trees whose leaves lost taxa; prune_taxa_with_labels "
+        "with the two filter flags; extract_tree with node_filter_fn=None / tree_factory / node_factory (types of the new tree and nodes); "
+        "prune_subtree(seed) -> TypeError and prune_subtree(None) -> ValueError with the tree untouched; every extract_tree case is also run on the "
+        "model's object store (op extractheap: tree read back from the store + source cells unchanged)")
 MODELLED_NOT_VERIFIED = [
     "C08: prune_taxa / prune_leaves_without_taxa / filter_leaf_nodes / retain_taxa / prune_subtree / Node.extract_subtree / "
     "TaxonNamespace.get_taxa (label lookup of the *_with_labels variants) / the update_bipartitions re-encoding (C01's encode) are "
     "hand-modelled (lean/DendroModel/Model/{C08,C08Upd}.lean: strike, dropLoop, T.sup, cut, exStep over the post-order sequence with a memo, "
     "lookupLabel/addNew/getTaxa, reencode) and tied to the code by the per-case comparison of the resulting trees (node identity, order, "
     "taxa, exact lengths), removed-node sets, exception kinds and (leafset, split) encodings",
-    "C08: case folding of labels is str.lower() in the code and ASCII String.toLower in the model (generated labels are ASCII); node "
-    "labels/annotations and source immutability are checked by the harness only; filter functions are represented by the set of node ids / "
+    "C08: case folding of labels: the fold METHOD (str.lower on both the given and the stored label, cache reset on relabel) is read off the source "
+    "and its table for code points 0..255 is taken from the running interpreter on every run (Gen/C08Kernels.lean; the model folds with that "
+    "table; fold_table_is_latin1_lower proves it is the closed-form Latin-1 lower-casing); above 255 the model claims nothing (driver: "
+    "out-of-range; oracle only). Source immutability is a theorem about the object-store model (extract_frame / extract_result_is_new, "
+    "Model/C08Heap.lean); that the store model behaves like the code is the per-case comparison of op extractheap, and the functional "
+    "extractTree and the store model are tied to each other only through those comparisons (no equivalence theorem). Node "
+    "labels/annotations are checked by the harness only; filter functions are represented by the set of node ids / "
     "taxa they accept; update_bipartitions=True is exercised on all three rooting states for prune_taxa(_with_labels on unique labels), "
     "retain_taxa, filter_leaf_nodes and prune_subtree (unrooted: the oracle expects the induced subtree with its basal bifurcation "
     "collapsed, checks path lengths, leafset and split bitmasks from scratch); the multi-match by-label cases and "
@@ -55,8 +66,15 @@ EXPLANATION = ("Theorems over all trees/predicates about the definitions drv_c08
                "the C15 analysis of buildTree), allIn_spec / strike_default_spec / strike_eq_strikeSpec / prune_flags_full_spec (independent "
                "description of prune_taxa's first pass on trees with internal taxa for three of the four flag settings), labels_upd_eq, "
                "plwt_upd_eq (by label and prune_leaves_without_taxa with update_bipartitions, any rooting). "
-               "Harness only: source immutability across histories of operations, node/edge labels, prune_taxa with leaf flag off + internal "
-               "flag on (no closed description).")
+               "ext-3: upd_unrooted_encoding / upd_unrooted_calls / upd_subtree_unrooted (not rooted: result tree = induced subtree with the basal "
+               "bifurcation collapsed and nothing else, full (leafset, split) list in closed form on naturals), upd_encoding_is_fresh (any rooting: "
+               "re-encoding the result again changes neither tree nor list), collapse_basal_idempotent; extract_frame / extract_result_is_new "
+               "(object-store model of Node.extract_subtree with every write of the loop incl. the stray nd1 write: old objects unchanged, no "
+               "AttributeError, result made of new objects each with a source reference); tie A bridges to Gen/C08Kernels: "
+               "fold_table_is_latin1_lower, fold_ascii_is_toLower, labelMatch_equiv, labelMatch_spec, merge_kernels_are_addLen, "
+               "wrapper_kernels_are_taxonFilter, wrappers_regenerated_eq_restrict, defaults_as_modelled, defaults_cover. "
+               "Harness only: source immutability across histories of operations on live objects, node/edge labels, types produced by "
+               "tree_factory/node_factory, prune_taxa with leaf flag off + internal flag on (no closed description), labels beyond code point 255.")
 
 
 ROOT = {True: "R", False: "U", None: "N"}
@@ -306,6 +324,9 @@ def run_taxon_variant(dendropy, case, variant):
     by_bit = {tns.accession_index(t): t for t in tns}
     out = {"removed": None, "source": None, "toks": toks}
     kw = dict(update_bipartitions=upd, suppress_unifurcations=sup)
+    xkw = dict(suppress_unifurcations=sup)
+    if case.get("omit_defaults") and sup and not upd:
+        kw, xkw = {}, {}       # rely on the declared defaults (suppress on, update off, recursive on; bridged by defaults_as_modelled)
     ttoks = " ".join(toks)
     if variant == "prune_taxa":
         tree.prune_taxa([by_bit[b] for b in P], **kw)
@@ -321,29 +342,29 @@ def run_taxon_variant(dendropy, case, variant):
         out["line"] = "retain %d %s %s %s" % (sup, nums(case["ns"]["bits"]), nums(Kx), ttoks)
     elif variant == "filter_leaf_nodes":
         kt = set(by_bit[b] for b in Kx)
-        out["removed"] = tree.filter_leaf_nodes(lambda nd: nd.taxon in kt, recursive=True, **kw)
+        out["removed"] = tree.filter_leaf_nodes(lambda nd: nd.taxon in kt, **(dict(kw, recursive=True) if kw else {}))
         out["line"] = "filter %d 1 keep %s %s" % (sup, nums(Kx), ttoks)
     elif variant == "prune_leaves_without_taxa":
-        out["removed"] = tree.prune_leaves_without_taxa(recursive=True, **kw)
+        out["removed"] = tree.prune_leaves_without_taxa(**(dict(kw, recursive=True) if kw else {}))
         out["line"] = "plwt %d 1 %s" % (sup, ttoks)
     else:
         out["source"] = tree
         out["fp_before"] = fingerprint(tree)
         if variant == "extract_tree_with_taxa":
-            res = tree.extract_tree_with_taxa([by_bit[b] for b in Kx], suppress_unifurcations=sup)
+            res = tree.extract_tree_with_taxa([by_bit[b] for b in Kx], **xkw)
             out["line"] = "extract %d 1 0 taxa %s %s" % (sup, nums(Kx), ttoks)
         elif variant == "extract_tree_with_taxa_labels":
-            res = tree.extract_tree_with_taxa_labels(["t%d" % b for b in Kx], suppress_unifurcations=sup)
+            res = tree.extract_tree_with_taxa_labels(["t%d" % b for b in Kx], **xkw)
             out["line"] = "extract %d 1 0 taxa %s %s" % (sup, nums(Kx), ttoks)
         elif variant == "extract_tree_without_taxa":
-            res = tree.extract_tree_without_taxa([by_bit[b] for b in P], suppress_unifurcations=sup)
+            res = tree.extract_tree_without_taxa([by_bit[b] for b in P], **xkw)
             out["line"] = "extract %d 1 0 nottaxa %s %s" % (sup, nums(P), ttoks)
         elif variant == "extract_tree_without_taxa_labels":
-            res = tree.extract_tree_without_taxa_labels(["t%d" % b for b in P], suppress_unifurcations=sup)
+            res = tree.extract_tree_without_taxa_labels(["t%d" % b for b in P], **xkw)
             out["line"] = "extract %d 1 0 nottaxa %s %s" % (sup, nums(P), ttoks)
         else:
             kt = set(by_bit[b] for b in Kx)
-            res = tree.extract_tree(node_filter_fn=lambda nd: nd.taxon is None or nd.taxon in kt, suppress_unifurcations=sup)
+            res = tree.extract_tree(node_filter_fn=lambda nd: nd.taxon is None or nd.taxon in kt, **xkw)
             out["line"] = "extract %d 1 0 taxa %s %s" % (sup, nums(Kx), ttoks)
         out["tree"] = res
         out["idfn"] = lambda nd: ids.of(getattr(nd, "extraction_source", None))
@@ -541,6 +562,9 @@ def taxon_group(ctx, dendropy, case, pending, variants=None):
             inpl_upd = case["upd"] and out.get("source") is None
             if not (inpl_upd and case["rooted"] != "R"):
                 pending.append((out["line"], dict(case, variant=variant), impl_text(out)))     # the plain op knows no re-encoding
+            if variant in ("extract_tree_with_taxa", "extract_tree_without_taxa_labels"):
+                pending.append(("extractheap" + out["line"][len("extract"):], dict(case, variant=variant + "-on-store"),
+                                impl_text(out) + " | source-intact"))
             if inpl_upd and out["line"].split()[0] == "plwt":
                 w = out["line"].split()
                 pending.append(("upd %s %s filter hastaxon %s" % (case["rooted"], w[1], " ".join(w[3:])),
@@ -585,16 +609,26 @@ def filter_case(ctx, dendropy, case, pending):
     surv = survivors_filter_leaves(src, acc, rec)
     line = "filter %d %d ids %s %s" % (case["sup"], rec, nums(sorted(acc)), " ".join(case["tree"]))
     nleaf_rej = len([i for i in src.leaves if i not in acc])
-    ctx.case(["filter", case["tree"], sorted(acc), rec, case["sup"], case["upd"]], 0 < nleaf_rej < len(src.leaves), kind="filter_leaf_nodes-ids",
+    ctx.case(["filter", case["tree"], sorted(acc), rec, case["sup"], case["upd"], case.get("via")], 0 < nleaf_rej < len(src.leaves),
+             kind=("prune_leaves_without_taxa-%s" % ("recursive" if rec else "single-pass")) if case.get("via") == "plwt" else "filter_leaf_nodes-ids",
              sample=case)
     tree, ids = make_tree(dendropy, case)
     expect_err = src.root not in surv
+    plwt = case.get("via") == "plwt"
+    if plwt:
+        # prune_leaves_without_taxa(recursive on/off): the filter "has a taxon"; acc was generated as the nodes that carry one
+        line = "plwt %d %d %s" % (case["sup"], rec, " ".join(case["tree"]))
     try:
-        removed = tree.filter_leaf_nodes(lambda nd: ids.of(nd) in acc, recursive=rec, update_bipartitions=case["upd"],
-                                         suppress_unifurcations=case["sup"])
+        if plwt:
+            removed = tree.prune_leaves_without_taxa(recursive=rec, update_bipartitions=case["upd"], suppress_unifurcations=case["sup"])
+        else:
+            removed = tree.filter_leaf_nodes(lambda nd: ids.of(nd) in acc, recursive=rec, update_bipartitions=case["upd"],
+                                             suppress_unifurcations=case["sup"])
     except Exception as e:
         name = exc_name(e)
-        if expect_err and name == "SeedNodeDeletion":
+        if plwt and expect_err and name in ("AttributeError", "SeedNodeDeletion"):
+            pending.append((line, case, "err"))     # nothing survives: outside the quantifier; crash or refusal both compared with "err"
+        elif expect_err and name == "SeedNodeDeletion":
             pending.append((line, case, "err"))
         elif expect_err:
             ctx.fail("exception", "filter_leaf_nodes that would delete the seed raised %s instead of SeedNodeDeletionException" % name, case)
@@ -608,10 +642,10 @@ def filter_case(ctx, dendropy, case, pending):
     # a node that became a leaf and passes the filter stays as a (taxon-less) leaf: clause checks on taxa only make sense when
     # the surviving leaves are original leaves
     c2 = dict(case, clause_checks=all(not src.kids[i] for i in surv if not any(c in surv for c in src.kids[i])))
-    if not judge(ctx, c2, "filter_leaf_nodes", src, surv, out):
+    if not judge(ctx, c2, "prune_leaves_without_taxa" if plwt else "filter_leaf_nodes", src, surv, out):
         if not (case["upd"] and case["rooted"] != "R"):
             pending.append((line, case, impl_text(out)))
-        if rec and case["upd"]:
+        if rec and case["upd"] and not plwt:
             pending.append(("upd %s %d filter ids %s %s" % (case["rooted"], case["sup"], nums(sorted(acc)), " ".join(case["tree"])),
                             dict(case, variant="filter_leaf_nodes+update_bipartitions"), upd_text(out)))
     if rec:
@@ -643,6 +677,7 @@ def extract_case(ctx, dendropy, case, pending):
             ctx.fail("source-mutated", "extract_tree changed the source tree (and raised %s)" % name, case)
         elif status != "ok" and name in ("SeedNodeDeletion", "ValueError"):
             pending.append((line, case, name))
+            pending.append(("extractheap" + line[len("extract"):], dict(case, variant="extract_tree-on-store"), name + " | source-intact"))
         else:
             ctx.fail("exception", "extract_tree raised %s: %s" % (name, str(e)[:200]), case)
         return
@@ -652,6 +687,8 @@ def extract_case(ctx, dendropy, case, pending):
     out = {"tree": res, "idfn": lambda nd: ids.of(getattr(nd, "extraction_source", None)), "ids": ids, "source": tree, "fp_before": fp}
     if not judge(ctx, dict(case, upd=False), "extract_tree", src, surv, out):
         pending.append((line, case, impl_text(out)))
+        # the same call on the model's object store: same tree read back, source objects untouched (judge checked the real source)
+        pending.append(("extractheap" + line[len("extract"):], dict(case, variant="extract_tree-on-store"), impl_text(out) + " | source-intact"))
     if not fi:
         keep = sorted(acc) if fl else list(range(src.n))
         pending.append(("restrict %d ids %s %s" % (case["sup"], nums(keep), " ".join(case["tree"])),
@@ -695,6 +732,86 @@ def extract_node_case(ctx, dendropy, case, pending):
            "tree_level": False}
     if not judge(ctx, dict(case, upd=False, clause_checks=False), "Node.extract_subtree", src, surv, out):
         pending.append((line, case, impl_text(out)))
+
+
+def subtree_bad_case(ctx, dendropy, case, pending):
+    """argument handling of prune_subtree: the seed (TypeError) and None (ValueError) are refused and the tree stays as it is"""
+    src = Src(case["tree"])
+    which = case["which"]
+    ctx.case(["subtree_bad", case["tree"], which, case["sup"], case["upd"]], False, kind="prune_subtree-refusal", sample=case)
+    tree, ids = make_tree(dendropy, case)
+    fp = fingerprint(tree)
+    try:
+        tree.prune_subtree(ids.node(src.root) if which == "seed" else None, update_bipartitions=case["upd"], suppress_unifurcations=case["sup"])
+    except (TypeError, ValueError) as e:
+        want = "TypeError" if which == "seed" else "ValueError"
+        if type(e).__name__ != want:
+            ctx.fail("exception", "prune_subtree(%s) raised %s instead of %s" % (which, type(e).__name__, want), case)
+        elif fingerprint(tree) != fp:
+            ctx.fail("source-mutated", "prune_subtree(%s) refused the call but changed the tree" % which, case)
+        elif which == "seed":
+            pending.append(("subtree %d %d %s" % (case["sup"], src.root, " ".join(case["tree"])), case, "err"))
+        return
+    except Exception as e:
+        ctx.fail("exception", "prune_subtree(%s) raised %s: %s" % (which, type(e).__name__, str(e)[:200]), case)
+        return
+    ctx.fail("induced-subtree", "prune_subtree(%s) did not refuse the call" % which, case)
+
+
+def factory_case(ctx, dendropy, case, pending):
+    """argument handling of Tree.extract_tree: node_filter_fn=None (whole structure), tree_factory, node_factory, reference attribute"""
+    src = Src(case["tree"])
+    sup = case["sup"]
+    surv = set(range(src.n))
+    line = "extract %d 1 0 all %s" % (sup, " ".join(case["tree"]))
+    ctx.case(["factory", case["tree"], sup, case["tf"], case["nf"], case["flt"]], src.n > 1, kind="extract_tree-factories", sample=case)
+    tree, ids = make_tree(dendropy, case)
+
+    class MyNode(dendropy.Node):
+        pass
+
+    class OtherNode(dendropy.Node):
+        pass
+
+    class MyTree(dendropy.Tree):
+        @classmethod
+        def node_factory(cls, **kwargs):
+            return MyNode(**kwargs)
+    made = []
+
+    def tf(taxon_namespace=None):
+        t = MyTree(taxon_namespace=taxon_namespace)
+        made.append(t)
+        return t
+    kw = dict(suppress_unifurcations=sup)
+    if case["tf"]:
+        kw["tree_factory"] = tf
+    if case["nf"]:
+        kw["node_factory"] = OtherNode
+    if case["flt"] == "true":
+        kw["node_filter_fn"] = lambda nd: True
+    want_node = OtherNode if case["nf"] else (MyNode if case["tf"] else dendropy.Node)
+    fp = fingerprint(tree)
+    try:
+        res = tree.extract_tree(**kw)
+    except Exception as e:
+        ctx.fail("exception", "extract_tree(%s) raised %s: %s" % (sorted(kw), type(e).__name__, str(e)[:200]), case)
+        return
+    if case["tf"] and (len(made) != 1 or res is not made[0]):
+        ctx.fail("extraction-source", "extract_tree(tree_factory=…) did not return the tree the factory made", case)
+        return
+    if not case["tf"] and type(res) is not type(tree):
+        ctx.fail("extraction-source", "extract_tree returned a %s for a %s" % (type(res).__name__, type(tree).__name__), case)
+        return
+    bad = [type(nd).__name__ for nd in tu.walk(res.seed_node) if type(nd) is not want_node]
+    if bad:
+        ctx.fail("extraction-source", "extract_tree(tree_factory=%s, node_factory=%s): new nodes of type %s, documented factory gives %s" % (
+            case["tf"], case["nf"], sorted(set(bad)), want_node.__name__), case)
+        return
+    out = {"tree": res, "idfn": lambda nd: ids.of(getattr(nd, "extraction_source", None)), "ids": ids, "source": tree, "fp_before": fp}
+    if not judge(ctx, dict(case, upd=False), "extract_tree(factories)", src, surv, out):
+        pending.append((line, case, impl_text(out)))
+        pending.append(("extractheap" + line[len("extract"):], dict(case, variant="extract_tree-on-store"), impl_text(out) + " | source-intact"))
 
 
 def subtree_case(ctx, dendropy, case, pending):
@@ -807,7 +924,13 @@ def labels_case(ctx, dendropy, case, pending, variants=None):
                     given, "case-sensitive" if case["case_sensitive"] else "case-insensitive", case["labels"],
                     "are not named" if removing else "are named", f["what"]))[:900]
         else:
-            if inplace and upd:
+            in_range = case["case_sensitive"] or all(ord(ch) < 256 for l in list(case["labels"]) + list(given) for ch in l)
+            ctx.count("labels-alphabet-" + ("ascii" if all(ord(ch) < 128 for l in list(case["labels"]) + list(given) for ch in l)
+                                            else ("latin1" if in_range else "beyond-fold-table")))
+            if not in_range:
+                # the model's fold table ends at code point 255: the driver must say so instead of answering
+                pending.append((out["line"], dict(case, variant=variant + "-out-of-range"), "out-of-range"))
+            elif inplace and upd:
                 w = out["line"].split()
                 pending.append(("bylabelupd %s %s %s" % (w[1], case["rooted"], " ".join(w[2:])),
                                 dict(case, variant=variant + "+update_bipartitions"), upd_text(out)))
@@ -821,6 +944,15 @@ def gen_labels_case(dendropy, rng, max_leaves):
     bits = case["ns"]["bits"]
     nclasses = max(1, rng.randint(1, max(1, len(bits) - 1)))
     pool = ["A", "B", "C", "D", "sp e", "F_1", "g"][:max(1, min(7, nclasses))]
+    alphabet = "ascii"
+    ra = rng.random()
+    if ra < 0.3:
+        # Latin-1 letters with and without a case partner (\u00d7 multiplication sign, \u00df sharp s, \u00b5 micro, \u00ff have none below 256)
+        pool = ["\u00c9a", "\u00d1an", "\u00c0\u00de", "\u00d8", "\u00d7x", "stra\u00dfe", "\u00b5m", "\u00ffz", "E", "\u00e6"][:max(2, min(10, nclasses + 1))]
+        alphabet = "latin1"
+    elif ra < 0.34:
+        pool = ["\u03a3a", "\u0130", "\u00c9a", "B"]       # beyond the model's fold table: oracle only
+        alphabet = "beyond-latin1"
     cs = rng.random() < 0.35
     labels = []
     for b in bits:
@@ -843,7 +975,8 @@ def gen_labels_case(dendropy, rng, max_leaves):
     if rng.random() < 0.15:
         given.append("absent")
     rng.shuffle(given)
-    case.update(op="labels", labels=labels, given=given, case_sensitive=cs, sup=rng.random() < 0.6, upd=rng.random() < 0.25)
+    case.update(op="labels", labels=labels, given=given, case_sensitive=cs, sup=rng.random() < 0.6, upd=rng.random() < 0.25,
+                alphabet=alphabet)
     if case["upd"] and rng.random() < 0.35:
         case["rooted"] = "R"
     return case
@@ -1034,8 +1167,12 @@ def flags_case(ctx, dendropy, case, pending):
     tns = tree.taxon_namespace
     by_bit = {tns.accession_index(t): t for t in tns}
     try:
-        tree.prune_taxa([by_bit[b] for b in P], suppress_unifurcations=case["sup"], is_apply_filter_to_leaf_nodes=fl,
-                        is_apply_filter_to_internal_nodes=fi)
+        if case.get("by_label"):
+            tree.prune_taxa_with_labels(["t%d" % b for b in P], suppress_unifurcations=case["sup"], is_apply_filter_to_leaf_nodes=fl,
+                                        is_apply_filter_to_internal_nodes=fi)
+        else:
+            tree.prune_taxa([by_bit[b] for b in P], suppress_unifurcations=case["sup"], is_apply_filter_to_leaf_nodes=fl,
+                            is_apply_filter_to_internal_nodes=fi)
     except Exception as e:
         # the seed itself would have to go, i.e. nothing survives: outside the quantifier of the statement.  The code has no
         # deliberate refusal there today (AttributeError: 'NoneType' has no attribute 'remove_child'); that crash and a deliberate
@@ -1163,6 +1300,8 @@ def gen_taxon_case(dendropy, rng, max_leaves):
     if case["upd"] and rng.random() < 0.4:
         case["rooted"] = "R"       # the rest keeps its rooting state: unrooted / undefined trees get their basal bifurcation collapsed
     case["op"] = "taxa"
+    if case["sup"] and not case["upd"] and rng.random() < 0.3:
+        case["omit_defaults"] = True
     return case
 
 
@@ -1173,12 +1312,32 @@ def gen_pred_case(dendropy, rng, max_leaves):
         src = Src(case["tree"])
         have = [t for t in src.tax if t is not None]
         case.update(op="flags", P=sorted(b for b in have if rng.random() < rng.choice([0.2, 0.5])), fl=rng.random() < 0.7, fi=rng.random() < 0.6,
-                    sup=rng.random() < 0.6, upd=False)
+                    sup=rng.random() < 0.6, upd=False, by_label=rng.random() < 0.3)
         return case
     case = gen_input(dendropy, rng, max_leaves)
     src = Src(case["tree"])
     case["sup"] = rng.random() < 0.6
     case["upd"] = False
+    if r < 0.19:
+        case.update(op="factory", tf=rng.random() < 0.5, nf=rng.random() < 0.5, flt=rng.choice(["none", "none", "true"]))
+        return case
+    if r < 0.21:
+        case.update(op="subtree_bad", which=rng.choice(["seed", "none"]), upd=rng.random() < 0.3)
+        return case
+    if r < 0.27:
+        # prune_leaves_without_taxa, recursive or not: some leaves (sometimes a whole clade) lose their taxon
+        toks = list(case["tree"])
+        p = rng.choice([0.2, 0.5, 0.8])
+        for i in src.leaves:
+            if rng.random() < p:
+                toks[1 + src.n + i] = "-"
+        case["tree"] = toks
+        src = Src(toks)
+        case.update(op="filter", via="plwt", acc=[i for i in range(src.n) if src.tax[i] is not None], recursive=rng.random() < 0.5,
+                    upd=rng.random() < 0.2)
+        if case["upd"] and rng.random() < 0.4:
+            case["rooted"] = "R"
+        return case
     if r < 0.45:
         p = rng.choice([0.3, 0.6, 0.9])
         pi = rng.choice([0.0, 0.0, 0.3, 1.0])
@@ -1225,6 +1384,10 @@ def run_case(ctx, dendropy, case, pending, variants=None):
         labels_case(ctx, dendropy, case, pending, variants)
     elif op == "history":
         history_case(ctx, dendropy, case, pending)
+    elif op == "factory":
+        factory_case(ctx, dendropy, case, pending)
+    elif op == "subtree_bad":
+        subtree_bad_case(ctx, dendropy, case, pending)
     else:
         raise ValueError("unknown op in case: %r" % (op,))
 
@@ -1342,10 +1505,34 @@ def replay(ctx, rec):
 
 
 def search(ctx, broken):
-    """obligations or the correspondence broke: exhaustive small scope on all variants"""
+    """obligations or the correspondence broke (generation of Gen/C08Kernels refused the source, a bridge theorem no longer holds, …):
+    look for a concrete failing input on the real code.  First the input classes the regenerated kernels are about — labels in several
+    cases and alphabets through the four by-label entry points (case rule / fold table), calls that rely on the declared defaults,
+    the wrappers, extraction with length-less merged nodes — then the exhaustive small scope on all variants"""
     dendropy = __import__("dendropy")
     pending = []
     rng = ctx.rng
+    t_end = time.time() + 40
+    for k in range(4000):
+        if ctx.failures or time.time() > t_end:
+            break
+        r = rng.random()
+        if r < 0.45:
+            case = gen_labels_case(dendropy, rng, 6)
+        elif r < 0.8:
+            case = gen_taxon_case(dendropy, rng, 6)
+            if case["sup"] and not case["upd"]:
+                case["omit_defaults"] = True
+        else:
+            case = gen_pred_case(dendropy, rng, 6)
+        if case is None:
+            continue
+        run_case(ctx, dendropy, case, pending)
+        if len(pending) >= 400:
+            flush(ctx, pending)
+    flush(ctx, pending)
+    if ctx.failures:
+        return
     for n in range(1, 5):
         for shape in tu.all_shapes(n):
             for wrap in (False, True):
